@@ -403,6 +403,93 @@ def _neg_reachable(f, w, it, bi, inline):
     return bool(negblocks & visited_blocks)
 
 
+def r19_7(prog, rep, rid="R19.7"):
+    """Cursor coverage.  The iterators encode their position in one cursor: positives below a bound, negatives above it, 0 = start/end.
+    For every cursor value below the end bound (all of them: the domain is finite) a bitset-mode call must examine the member words
+    before it may answer end-of-iteration; a cursor value the function itself can store (largest positive + 1) that falls between the
+    `positives` and the `negatives` test ends the iteration blindly and drops every negative member."""
+    n = 0
+    for name in ("bi31_next", "bi63_next", "bi383_next", "bi447_next"):
+        f = prog.fn(name)
+        cfg = f.cfg
+        it = f.params[0]["n"]
+        bi = f.params[1]["n"]
+        inline = name in ("bi31_next", "bi63_next")
+        cur = "*" + it
+        tag = (bi + ".pos") if inline else ("*" + bi + "->pos")
+        words = (bi + ".pos", bi + ".neg") if inline else (bi + "->pos", bi + "->neg", "*" + bi + "->pos", "*" + bi + "->neg")
+        # end bound: the largest constant the cursor is compared with
+        consts = set()
+        for b in cfg.blocks:
+            c = cfg.cond(b)
+            if c is None:
+                continue
+            for truth in (True,):
+                for a in cond_atoms(c, truth):
+                    if len(a) == 5 and (a[1] == cur or a[2] == cur):
+                        v = const_eval(f, a[4] if a[1] == cur else a[3])
+                        if v is not None:
+                            consts.add(v)
+        if not consts or max(consts) < 32:
+            raise AnalysisBroken("%s: no bound on the cursor found (%s)" % (name, sorted(consts)))
+        end = max(consts)
+
+        def reads(x):
+            from ..facts import children
+            stack = [x]
+            while stack:
+                nn = stack.pop()
+                if not isinstance(nn, dict):
+                    continue
+                if nn.get("k") == "bin" and nn["op"] == "&" and int_value(nn["r"]) == 1 and lv(strip_casts(nn["l"])) == tag:
+                    continue        # the representation tag test is not a look at the members
+                if nn.get("k") in ("mem", "idx") or (nn.get("k") == "un" and nn["op"] == "*"):
+                    t = lv(nn)
+                    if any(t == w_ or t.startswith(w_ + "[") for w_ in words):
+                        return True
+                stack.extend(children(nn))
+            return False
+
+        def effect(b, i, x, store):
+            return {"$seen": 1} if reads(x) else None
+
+        def assume(b, si, cond, store):
+            # bitset mode only: the single-value / native representation has its own (trivial) termination
+            c = strip(cond)
+            neg = False
+            while isinstance(c, dict) and c.get("k") == "un" and c["op"] == "!":
+                neg = not neg
+                c = strip(c["e"])
+            if isinstance(c, dict) and c.get("k") == "bin" and c["op"] == "&" and int_value(c["r"]) == 1 and lv(strip_casts(c["l"])) == tag:
+                tagged = (si == 0) != neg      # this edge is taken when the tag bit is set
+                if inline and tagged:
+                    return "infeasible"        # bitint31/63: tag set = single value
+                if not inline and not tagged:
+                    return "infeasible"        # bitint383/447: tag clear = native list
+            return None
+        blind = []
+        # the dispatch on the cursor is a cascade of comparisons with constants: the constants and their neighbours represent every region
+        for c0 in sorted({v_ for k_ in consts | {0, 1} for v_ in (k_ - 1, k_, k_ + 1) if 0 <= v_ < end}):
+            init = {cur: c0}
+            if not inline:
+                init[tag] = 1
+            w = AbsWalk(f, {cur} | ({tag} if not inline else set()), init=init, effect=effect, assume=assume, max_states=50000, widen=4 * end)
+            w.run()
+            if any(not st.get("$seen") for st in w.exit_stores):
+                blind.append(c0)
+        n += 1
+        key = "%s/cursor-coverage" % name
+        if not blind:
+            rep.ok(rid, key, f.loc(), "for every cursor value in [0, %d) a bitset-mode call examines the member words before it can end the iteration" % end)
+        else:
+            rep.fail(rid, key, f.loc(),
+                     "with the cursor at %s (bitset mode) %s() answers end-of-iteration without looking at the member words: after the member "
+                     "%s has been yielded the remaining (negative) members are never iterated" % (
+                         ", ".join(map(str, blind[:4])), name, ", ".join(str(c_ - 1) for c_ in blind[:4])), {"blind_cursors": blind[:16], "end_bound": end})
+    if n < 4:
+        rep.broken_("rule=R19.7 expected 4 signed iterators, analysed %d" % n)
+
+
 def r19_5(prog, rep, rid="R19.5"):
     """Tag-bit discipline of the assign functions.  Bit 0 of the positive word is the representation tag
     (one integer / native list vs bitset).  (a) ass_bi31/ass_bi63: every member bit that goes into the positive word is
